@@ -19,7 +19,7 @@ pub fn prop() -> Prop {
         rule: "complete enumeration of: all byte strings of length <= 2 (quick) / <= 3 (thorough) through to_base62/from_base62 \
                vs. a big-integer reference; seeds with 0..=4 leading zero bytes x 8 remainders plus seeds searched so that the \
                PUBLIC key starts with a zero byte, rendered exactly as key generation prints them and configured as \
-               private / private+public / trusted key followed by a real handshake; passwords p0..p{N} + dictionary through \
+               private / private+public / trusted key followed by a real handshake; passwords p0..p{N} + dictionary (every length 0..=130) through \
                generate_keypair(Some(pw)) twice, two Crypto instances, handshake; all ordered pairs of 12 different passwords \
                must be rejected. non-trivial = case reached a real handshake or a non-empty codec round trip",
         run,
